@@ -128,11 +128,13 @@ JudgeStep(role, stored, act, acc, ob) ==
     IN  [acc |-> a1, bad |-> b9]
 
 (*************************** C03: two endpoints, judged at quiescence *******************)
-(* c, s: [st, wsOpen, nSetup, idOk]; q.trustGiven: the server side trusted the client beforehand, through auto-accept,   *)
+(* c, s: [st, wsOpen, nSetup, idOk, nClosed]; q.trustGiven: the server side trusted the client beforehand, through auto-accept,   *)
 (* or by an approval given before or while the request was pending, and did not cancel; q.trustAny: trusted at any time *)
 BothCompleteOpen(c, s) == c.st = "Complete" /\ s.st = "Complete" /\ c.wsOpen /\ s.wsOpen /\ c.nSetup = 1 /\ s.nSetup = 1
 NeitherComplete(c, s)  == c.nSetup = 0 /\ s.nSetup = 0
-BothEnded(c, s)        == ~c.wsOpen /\ ~s.wsOpen
+\* a side has ended when its transport is closed AND it said so (a side that still calls itself complete on a dead transport,
+\* and never reports its end, has not ended)
+BothEnded(c, s)        == ~c.wsOpen /\ ~s.wsOpen /\ c.nClosed >= 1 /\ s.nClosed >= 1
 JudgePair(c, s, q) ==
     LET b1 == IF ~(BothCompleteOpen(c, s) \/ (BothEnded(c, s)))
               THEN {<<"C03", "disagree-at-quiescence", c.st, s.st>>} ELSE {}
